@@ -228,7 +228,12 @@ func (em *emitter) emitPackage(pkg *ast.Package, extendingFile bool, path string
 				vars[v.Name] = index
 			}
 			em.assignValuesToAddresses(addresses, n.Rhs)
-			for name, reg := range pkgVarRegs {
+			for _, v := range n.Lhs {
+				name := v.Name
+				reg, ok := pkgVarRegs[name]
+				if !ok {
+					continue
+				}
 				index := vars[name]
 				em.fb.emitSetVar(false, reg, int(index), pkgVarTypes[name].Kind())
 			}
